@@ -403,6 +403,45 @@ func c03Units(tier string) []*Unit {
 			return out
 		}})
 	}
+	// one failing run: once task reached both as a task named on the command line and through a
+	// task call: whichever of the two calls really executes it, the invocation ends with the
+	// task-run class (or the command's own code with --exit-code)
+	for _, xflag := range []bool{false, true} {
+		xflag := xflag
+		pg := &Prog{Tasks: []*T{
+			{Name: "a", Run: "once", Cmds: []C{P(), {Exit: 7}, P()}},
+			{Name: "b", IgnoreError: true, Cmds: []C{CallS("a", "="), P()}},
+			{Name: "c", Cmds: []C{CallS("a", "="), P()}},
+		}}
+		for _, v := range []struct {
+			name     string
+			parallel bool
+			roots    []string
+		}{
+			{"ignoring-caller-then-named", false, []string{"b", "a"}},
+			{"named-and-caller-parallel", true, []string{"a", "c"}},
+			{"caller-and-named-parallel", true, []string{"c", "a"}},
+		} {
+			sc := scen(fmt.Sprintf("shared-once-named-and-called/%s/x=%v", v.name, xflag), pg, vlab.Options{Parallel: v.parallel, ExitCodeFlag: xflag}, v.roots...)
+			for i := range sc.Calls {
+				sc.Calls[i].Vars = append(sc.Calls[i].Vars, [2]string{"VP", "="})
+			}
+			us = append(us, &Unit{Name: sc.Name, Sc: sc, Bound: 2, Prune: true, Weight: 2, Check: func(x *vlab.Exec) []vlab.Violation {
+				out := generic("C03", x)
+				if x.Res.Deadlock || x.Res.Horizon || x.Res.Panic != "" {
+					return out
+				}
+				want := 201
+				if xflag {
+					want = 7
+				}
+				if x.Code != want {
+					out = append(out, vlab.V("C03", "status_class", fmt.Sprintf("got%d:want%s:shared_once_named_and_called", x.Code, wantStr(want, xflag)), fmt.Sprintf("status %d (err=%q), expected %d", x.Code, x.ErrStr, want)))
+				}
+				return out
+			}})
+		}
+	}
 	us = append(us, c03CLIUnits(tier)...)
 	return us
 }
